@@ -20,6 +20,7 @@ Inductive probe_res :=
 
 (** What the harness saw the implementation do with an input [b]. *)
 Inductive obs_res :=
+| ObsPanic                                (* deserialize (or the observation code around it) panicked *)
 | ObsErr (e : werr)                       (* deserialize failed *)
 | ObsOk (main : probe_res)                (* serialize into 2048 zeroed octets *)
         (redecode_equal : bool)           (* deserialize (serialize m) == m   (PartialEq) *)
@@ -110,7 +111,7 @@ Definition observed_eqb (a b : observed) : bool :=
 Definition probe_sizes (o : observed) : list Z :=
   match o_res o with
   | ObsOk _ _ _ ps => map fst ps
-  | ObsErr _ => []
+  | ObsErr _ | ObsPanic => []
   end.
 
 Definition agree_C04 (c : case) : bool :=
@@ -158,6 +159,7 @@ Definition reenc_ok (b r : bytes) : bool :=
 Definition ok_C04 (b : bytes) (o : observed) : bool :=
   o_local o &&
   match o_res o with
+  | ObsPanic => false
   | ObsErr _ => negb (spec_wellformed b)
   | ObsOk main req tlvs probes =>
       let L := spec_get FmessageLength b in
